@@ -53,9 +53,9 @@ type BOptions struct {
 	// finds it prints the pid column right-aligned in a wider column, the
 	// way procps does for every pid shorter than the column.
 	PadPs bool
-	Fault      *Fault
-	Slow       map[string]int // job key -> milliseconds before the body
-	Gate       []string       // job keys that wait for Release
+	Fault *Fault
+	Slow  map[string]int // job key -> milliseconds before the body
+	Gate  []string       // job keys that wait for Release
 	// mrp-side kill / signal at its KillAt-th file-system effect (fsmrp)
 	KillAt  int
 	KillSig string // KILL (default) | TERM | INT
